@@ -73,6 +73,7 @@ def Ev.putFault : Ev → Bool
   | .step _ .put => true
   | .online _ .put => true
   | .steponl _ .put => true
+  | .steppre _ .put => true
   | .fclose _ => true
   | _ => false
 
@@ -249,6 +250,15 @@ theorem peerEv_spec (cfg : Cfg) (s : St) (e : Ev) (h : InvA s) (hb : s.chan = .r
         exact peerpost_same (invA_mk (invc_notready (ch' := .failure) (st' := s.stream) (dz' := s.dz) h (fun x => by cases x)) rfl rfl rfl rfl rfl rfl rfl rfl)
           (fun x => by cases x) (fun x => by rw [hst'] at x; cases x) hu
           (Or.inr (Or.inr (Or.inr (Or.inr rfl)))) rfl (Or.inl rfl) (Or.inl rfl) rfl rfl plain_rfl
+    · exact honl f (by intro x y; subst y; simp [Ev.putFault] at x)
+  | steppre w f =>
+    simp only [peerEv]
+    split
+    · rename_i hc
+      have hst' : s.stopped = false := hc.1
+      exact peerpost_same (invA_mk (invc_notready (ch' := .failure) (st' := s.stream) (dz' := s.dz) h (fun x => by cases x)) rfl rfl rfl rfl rfl rfl rfl rfl)
+        (fun x => by cases x) (fun x => by rw [hst'] at x; cases x) hu
+        (Or.inr (Or.inr (Or.inr (Or.inr rfl)))) rfl (Or.inl rfl) (Or.inl rfl) rfl rfl plain_rfl
     · exact honl f (by intro x y; subst y; simp [Ev.putFault] at x)
   | join w =>
     simp only [peerEv]
@@ -685,6 +695,9 @@ theorem next_spec (cfg : Cfg) (s : St) (e : Ev) (h : Full s) :
                   · exact next_peer_a cfg s _ h hg' rfl
                   · exact next_peer_b cfg s _ h hg' rfl
     | steponl w f => cases w <;> simp only [Ev.who]
+                     · exact next_peer_a cfg s _ h hg' rfl
+                     · exact next_peer_b cfg s _ h hg' rfl
+    | steppre w f => cases w <;> simp only [Ev.who]
                      · exact next_peer_a cfg s _ h hg' rfl
                      · exact next_peer_b cfg s _ h hg' rfl
     | append m =>
